@@ -81,7 +81,13 @@ class Report:
             if "key" in e:
                 rev[e["key"]] = e
             for r in e.get("rules", []):
-                rev["%s|%s|%s" % (r.split(".")[0], r, e["site"])] = e
+                if "site" in e:
+                    rev["%s|%s|%s" % (r.split(".")[0], r, e["site"])] = e
+        rev_prefix = []          # (rule, prefix, entry): a reviewed argument about one named function and one kind of site in it
+        for e in reviewed.get("sites", []):
+            if e.get("site_prefix"):
+                for r in e.get("rules", []):
+                    rev_prefix.append(("%s|%s|%s" % (r.split(".")[0], r, e["site_prefix"]), e))
         kno = {}
         for e in known.get("findings", []):
             if e.get("status") != "open":
@@ -100,6 +106,11 @@ class Report:
             ak = "%s|%s|%s" % (self.prop, inst.rule, inst.alt) if inst.alt else None
             if fk not in rev and fk not in kno and ak is not None and (ak in rev or ak in kno):
                 fk = ak
+            if fk not in rev and fk not in kno:
+                for pre, e in rev_prefix:
+                    if fk.startswith(pre):
+                        rev[fk] = e
+                        break
             if fk in rev:
                 inst.status = "reviewed"
                 reviewed_used.append({"key": fk, "tag": rev[fk].get("tag"), "argument": rev[fk].get("argument")})
